@@ -83,6 +83,38 @@ def r02_1(ck, F):
                   {"take_at": b.loc(t), "amount": mir.show(amount), "payload": mir.show(payload)})
 
 
+def r02_1b(ck, F):
+    ck.rule("R02.1b", "every frame costs at least one credit on the sending side (the receiver charges max(len, 1)): the "
+            "amount taken is a constant >= 1, or the byte length of a chunk split off a buffer that is known non-empty "
+            "(the emit is control-dependent on is_empty() == false of that buffer)",
+            "empty messages sent without spending a credit: unlimited frames in flight and a sender pool that drifts "
+            "above the peer's receive buffer", floor=6)
+    for path, b, bb, i, rv, site in _emit_sites(F):
+        if rv["variant"] != "SendData":
+            continue
+        takes = [t for t, _ in b.calls(TAKE) if b.dominates(t, bb)]
+        takes = [t for t in takes if bb in b.reach([t], avoid=[x for x in takes if x != t])]
+        if not takes:
+            continue
+        t = max(takes, key=lambda x: len(b.dom[x]))
+        amount = mir.strip_casts(b.expr(b.term(t)["a"][1]))
+        c = const_value(amount)
+        if c is not None:
+            ck.expect(c >= 1, site + "#min-cost", f"take({c})", f"frame costs {c} credits", b.loc(t))
+            continue
+        payload = b.expr(rv["ops"][rv["fields"].index("data")])
+        buf = payload[2][0] if payload[0] == "call" and payload[1] == "bytes::Bytes::split_to" else None
+        ok = False
+        if buf is not None:
+            for s, tb, v in controlling_edges(b, t):
+                e = switch_expr(b, s)
+                if e[:2] == ("call", "bytes::Bytes::is_empty") and mir.same_value(e[2][0], buf) and switch_meaning(b, s, v) is False:
+                    ok = True
+        ck.expect(ok, site + "#min-cost", "chunk taken from a buffer known to be non-empty",
+                  f"take({mir.show(amount)[:60]}) can be zero: the emit is not guarded by the buffer being non-empty",
+                  b.loc(t))
+
+
 def r02_2(ck, F):
     ck.rule("R02.2", "the split size of every emitted chunk is a minimum over {remaining length, the peer's chunk_size, "
             "available credit}; try_send requests the whole length up front; connect clamps the port count by "
@@ -324,5 +356,5 @@ def r02_7(ck, F):
 
 
 def run(ck, F):
-    for r in (r02_1, r02_2, r02_3, r02_4, r02_5, r02_6, r02_7):
+    for r in (r02_1, r02_1b, r02_2, r02_3, r02_4, r02_5, r02_6, r02_7):
         ck.run_rule(r)
